@@ -39,7 +39,7 @@ func zzH18() {
 	}
 
 	// router advertisement: symbolic header, 0..2 prefix options, one unrelated option
-	np := zzNondetChoice("nprefix", 3)
+	np := zzNondetChoice("nprefix", zzParam("prefixes")+1)
 	ra := &ndp.RouterAdvertisement{
 		ManagedConfiguration: zzNondetBool("m"), OtherConfiguration: zzNondetBool("o"),
 		CurrentHopLimit: zzNondetUint8("hop"),
